@@ -13,7 +13,9 @@ use serde_json::json;
 use std::collections::{BTreeSet, HashSet};
 use vh_common::{Args, Report, Rng, run_driver};
 
-const FRESH: &str = "fresh_name";
+/// the fresh name: name 9 of the model, rendered `v9`
+const FRESH_ID: u32 = 9;
+const FRESH: &str = "v9";
 
 fn programs(args: &Args, report: &mut Report) -> Vec<Vec<Stat>> {
     if let Some(path) = &args.replay {
@@ -97,7 +99,7 @@ fn relex(text: &str, like: &Rendered) -> Option<Rendered> {
     if k != like.toks.len() {
         return None;
     }
-    Some(Rendered { text: text.to_string(), toks })
+    Some(Rendered { text: text.to_string(), toks, init_is_name: like.init_is_name.clone() })
 }
 
 fn parse_set(s: &str) -> Option<Vec<usize>> {
@@ -126,6 +128,7 @@ pub fn run(args: &Args, report: &mut Report) {
         for k in &toks {
             reqs.push(format!("scope.rename {} {}", encs[i], r.toks[*k].0));
             reqs.push(format!("scope.refs {} {}", encs[i], r.toks[*k].0));
+            reqs.push(format!("scope.renamed {} {} {}", encs[i], r.toks[*k].0, FRESH_ID));
         }
         index.push((first, toks));
     }
@@ -148,8 +151,9 @@ pub fn run(args: &Args, report: &mut Report) {
         for (j, k) in toks.iter().enumerate() {
             let (pos, off, kind, name) = &r.toks[*k];
             let input = json!({"program": encs[i], "lua": r.text, "token": pos});
-            let model_rename = parse_set(&answers[first + 1 + 2 * j]);
-            let model_refs = parse_set(&answers[first + 2 + 2 * j]);
+            let model_rename = parse_set(&answers[first + 1 + 3 * j]);
+            let model_refs = parse_set(&answers[first + 2 + 3 * j]);
+            let model_renamed = answers[first + 3 + 3 * j].clone();
             // what the token denotes per the reference resolver
             let target = match kind {
                 TokKind::Decl => Some(*pos),
@@ -205,6 +209,13 @@ pub fn run(args: &Args, report: &mut Report) {
                 continue;
             };
             report.traces_validated += 1;
+            // `references` resolves its token with SemanticDeclLevel::Trace: for `local g = f` with a
+            // function-valued `f` it answers for `f`. Known finding; that tracing is not modelled.
+            let alias = target.is_some_and(|t| r.init_is_name.contains(&t));
+            let class = if alias { Some("references-target-initialised-by-bare-name") } else { class };
+            if alias {
+                report.count("target_initialised_by_bare_name");
+            }
             // ---- rename edits
             let mut edits: Vec<(usize, usize, String)> = Vec::new();
             let mut foreign = false;
@@ -266,14 +277,31 @@ pub fn run(args: &Args, report: &mut Report) {
             }
             ref_pos.sort();
             let exp_vec: Vec<usize> = expected.iter().copied().collect();
+            let other_problems = problems.len();
             if refs.is_some() && ref_pos != exp_vec {
                 problems.push(format!("references returns tokens {ref_pos:?}, the declaration and its uses are {exp_vec:?}"));
             }
+            // the known finding covers only a deviating references set on such a token, nothing else
+            let class = if alias && other_problems == 0 { class } else { ast::class_of(p) };
             // ---- apply the edits with the fresh name, re-analyse, compare the resolution structure
             if problems.is_empty() {
                 let mut text = r.text.clone();
                 for (a, b, t) in edits.iter().rev() {
                     text.replace_range(*a..*b, t);
+                }
+                // tie: the model's renamed program (edit positions applied to the AST) is this very text,
+                // and equals the α-renaming of the target declaration through the environment
+                match model_renamed.strip_prefix("ok ").and_then(|x| x.split_once(' ')) {
+                    Some((enc2, flag)) => {
+                        let same_text = ast::decode(enc2).map(|q| ast::render(&q).text == text).unwrap_or(false);
+                        if !same_text {
+                            report.mismatch(json!({"input": input, "what": "text after applying the rename edits differs from the model's renamed program", "model": enc2, "impl": text}));
+                        }
+                        if flag != "same" {
+                            report.mismatch(json!({"input": input, "what": "model: renaming by edit positions differs from α-renaming through the environment", "model": enc2}));
+                        }
+                    }
+                    None => report.mismatch(json!({"input": input, "what": "driver rejected scope.renamed", "answer": model_renamed})),
                 }
                 match relex(&text, r) {
                     None => problems.push("renamed text does not have the same token structure".into()),
@@ -309,7 +337,9 @@ pub fn run(args: &Args, report: &mut Report) {
                 report.mismatch(json!({"input": input, "what": "rename edit set differs from the model (declaration ∪ recorded references)",
                     "model": model_rename, "impl": real_edits}));
             }
-            if refs.is_some() && model_refs.as_ref() != Some(&ref_pos) {
+            if alias {
+                report.count("references_tie_skipped_alias_tracing_not_modelled");
+            } else if refs.is_some() && model_refs.as_ref() != Some(&ref_pos) {
                 report.mismatch(json!({"input": input, "what": "references differ from the model", "model": model_refs, "impl": ref_pos}));
             }
             if refs.is_none() {
